@@ -22,16 +22,13 @@ def jobserver_absent_edge(f):
     """edge_ok that follows only the 'jobserver is configured' side of tests on builder_ /
     jobserver_ (the pairing obligations are conditional on a jobserver being present)."""
     def ok(b, i, s):
-        ef = f.edge_fact(b, i)
-        if not ef:
-            return True
-        key, pol, atom = ef
-        a = strip(atom)
-        if isinstance(a, dict) and (
-                (a.get('k') == 'mem' and a['n'] in ('Plan::builder_', 'RealCommandRunner::jobserver_'))
-                or (a.get('k') == 'call' and basename(a.get('name') or '') == 'get' and
-                    mentions_field(a.get('recv'), 'Builder::jobserver_'))):
-            return pol
+        for key, pol, atom in f.edge_facts(b, i):
+            a = strip(atom)
+            if isinstance(a, dict) and (
+                    (a.get('k') == 'mem' and a['n'] in ('Plan::builder_', 'RealCommandRunner::jobserver_'))
+                    or (a.get('k') == 'call' and basename(a.get('name') or '') == 'get' and
+                        mentions_field(a.get('recv'), 'Builder::jobserver_'))):
+                return pol
         return True
     return ok
 
